@@ -195,6 +195,10 @@ def runLines : DS → List String → List String
     | ["echo", v] => runLines { st with echo := v != "0" } ls
     | ["two"] => runLines { st with two := true } ls
     | ["rep", v] => runLines { st with rep := v != "0" } ls
+    -- round 8: generated inputs the anchored code does not read (feature gate SupportParentQuotaSubmitPod; phase and
+    -- node binding of the environment's pods: "a quota with pods") — recorded for the replay, no input of the model
+    | ["gate", _] => runLines st ls
+    | "podattrs" :: _ => runLines st ls
     | "try" :: rest =>
       match parseToks rest with
       | none => "bad-op" :: runLines st ls
